@@ -281,6 +281,9 @@ class RefGrammar:
         self._first = {}
         self._unit = None
         self.cost = None
+        # arcs never used when *generating* sentences: a bare NEWLINE statement cannot be produced by the
+        # tokenizer (the property excludes it)
+        self.banned = {('stmt', 'NEWLINE'), ('file_input', 'NEWLINE')}
 
     def start_state(self, rule):
         return frozenset({self.rules[rule]})
@@ -349,7 +352,7 @@ class RefGrammar:
         while changed:
             changed = False
             for n in self.order:
-                c, w = self.shortest_word(frozenset({self.rules[n]}))
+                c, w = self.shortest_word(frozenset({self.rules[n]}), n)
                 if c < self.cost[n]:
                     self.cost[n] = c
                     self.best[n] = w
@@ -359,7 +362,7 @@ class RefGrammar:
         self._minexp()
         return self.cost[s] if s in self.rules else 1
 
-    def shortest_word(self, S0):
+    def shortest_word(self, S0, rule=None):
         if self.cost is None:
             self._minexp()
         dist = {S0: 0}
@@ -373,7 +376,7 @@ class RefGrammar:
                 return d, w
             for a in sorted(S_firsts(S)):
                 c = self.cost[a] if a in self.rules else 1
-                if c >= INF:
+                if c >= INF or (rule, a) in self.banned:
                     continue
                 S2 = S_deriv(S, a)
                 nd = d + c
@@ -396,7 +399,7 @@ class RefGrammar:
             if len(w) >= maxlen:
                 return
             for a in sorted(S_firsts(S)):
-                if self.symcost(a) >= INF:
+                if self.symcost(a) >= INF or (rule, a) in self.banned:
                     continue
                 rec(S_deriv(S, a), w + (a,))
         rec(frozenset({self.rules[rule]}), ())
@@ -442,11 +445,11 @@ class RefGrammar:
             while q:
                 S = q.pop(0)
                 for a in sorted(S_firsts(S)):
-                    if self.symcost(a) >= INF:
+                    if self.symcost(a) >= INF or (r, a) in self.banned:
                         continue
                     S2 = S_deriv(S, a)
                     if a in self.rules and a not in ctx:
-                        c, suf = self.shortest_word(S2)
+                        c, suf = self.shortest_word(S2, r)
                         if suf is not None:
                             ctx[a] = (r, pref[S] + (a,) + suf, len(pref[S]))
                             work.append(a)
